@@ -387,7 +387,9 @@ class Gen(object):
                             scope=None, closure=None, destroy=None, type=('basic', 'gint32'), attrs={}),
                        mk(2, dict(length=0, zero=True)), mk(3, dict(length=0, zero=False)), mk(4, dict(length=1, zero=False)),
                        mk(5, dict(fixed=4, zero=True)), mk(6, dict(fixed=4, zero=False)), mk(7, dict(fixed=3, zero=False)),
-                       mk(8, dict(zero=True)), mk(9, dict(zero=False)), mk(10, dict(length=0))]
+                       mk(8, dict(zero=True)), mk(9, dict(zero=False)), mk(10, dict(length=0)),
+                       # a length parameter AND a fixed size (the scanner writes both when both are annotated)
+                       mk(11, dict(length=1, fixed=4, zero=False)), mk(12, dict(length=0, fixed=3, zero=True))]
         self.rng.shuffle(f['params'])
         # keep the two integers in front so that the length indices stay 0 and 1
         ints = [p for p in f['params'] if p['type'][0] == 'basic']
@@ -753,3 +755,30 @@ GLIB_NAMES_DUMP = [
     '  A %s dir=0 transfer=0 null=0 opt=0 calleralloc=0 skip=0 ret=0 scope=0 closure=-1 destroy=-1 type=%s' % (n_, t_)
     for n_, t_ in (('iter', 'iface(GLib.HashTableIter,ptr=1)'), ('kind', 'iface(GLib.ErrorType,ptr=0)'), ('ls', 'iface(GLib.ListStoreish,ptr=1)'),
                    ('sn', 'iface(GLib.SListNode,ptr=1)'), ('l', 'glist(iface(GLib.ListStoreish,ptr=0))'))]
+
+
+BOTH_RE = None
+
+
+def both_dimensions(exp, got):
+    """Known finding (C06-K1/C09-K1): the typelib format has room for ONE dimension of a C array; for an array with a length
+    parameter and a fixed size the compiler stores the length and no size.  Expected lines of that shape whose size-less
+    form is what was reported are replaced by it, so that everything else is still compared.  Returns (exp', hits)."""
+    import re
+    gots = {}
+    for l in got:
+        gots[l] = gots.get(l, 0) + 1
+    out, hits = [], []
+    for l in exp:
+        m = re.search(r'array\[0,zero=\d,len=(\d+),fixed=(\d+)', l)
+        if m and gots.get(l, 0) == 0:
+            alt = l[:m.start(2)] + '-1' + l[m.end(2):]
+            if gots.get(alt, 0) > 0:
+                gots[alt] -= 1
+                out.append(alt)
+                hits.append(dict(expected=l.strip(), reported=alt.strip()))
+                continue
+        if l in gots and gots[l] > 0:
+            gots[l] -= 1
+        out.append(l)
+    return out, hits
